@@ -327,3 +327,493 @@ def gen_C03(rng, tier):
             c.quit()
         out.append(c.build())
     return out
+
+
+# ------------------------------------------------------------------------------------------------
+NEAR_MISS_TEXTS = [b"SELECT @@max_allowed_packet", b"select @@max_allowed_packet", b"SELECT @@version", b"select @@x",
+                   b"SELECT @x", b"SELECT@@x", b"Select @@x", b"SELECT  @@x", b" SELECT @@x", b"SELECT @", b"SELECT @@",
+                   b"SELECT 1", b"USER()", b"use", b"usedb", b"USE", b"USEd", b"USAGE", b"us", b"", b"U", b"SELECT USE db",
+                   b"select use", b"INSERT INTO t VALUES ('USE x')", b"-- USE db", b"SHOW TABLES", b"\x00", b"S", b"SELECT @@\x00"]
+USE_OK = [b"USE db", b"use db", b"USE `db`", b"use `db`;", b"USE db;", b"USE  db", b"USE db ", b"USE db; ", b"use \tdb;\n",
+          b"USE `my_db1`;  ", b"USE a", b"use information_schema", b"USE d-b.x", b"USE `d-b`", b"USE \xc3\xa9"]
+USE_UNJUDGED = [b"USE ", b"USE `a b`", b"USE a b", b"USE db ;", b"USE db;;", b"USE ``", b"USE `", b"USE ;", b"Use db", b"uSE db",
+                b"USE `a`b`", b"USE a;b"]
+
+
+def invalid_utf8(rng):
+    base = rand_ascii(rng, rng.randint(0, 8))
+    bad = rng.choice([b"\xff", b"\xc0\x80", b"\xe0\x80\x80", b"\xed\xa0\x80", b"\xf4\x90\x80\x80", b"\x80", b"\xc3", b"\xe2\x82", b"\xf0\x9f\x98"])
+    pos = rng.randint(0, len(base))
+    return base[:pos] + bad + base[pos:]
+
+
+def gen_C02(rng, tier):
+    n = 220 if tier == "quick" else 3000
+    maxcmd = 12 if tier == "quick" else 60
+    out = []
+    for i in range(n):
+        c = Conv("C02-%05d" % i, mode=rng.choice(["lockstep", "pipelined", "pipelined"]))
+        c.chunks, c.then = rand_chunks(rng)
+        live = []
+        ncmd = rng.randint(2, maxcmd)
+        fatal = False
+        for j in range(ncmd):
+            r = rng.random()
+            if r < 0.22:
+                t = rng.choice(NEAR_MISS_TEXTS) if rng.random() < 0.6 else rng.choice([rand_utf8(rng, rng.randint(0, 30)), rand_ascii(rng, rng.randint(0, 40))])
+                if t[:9] in (b"SELECT @@", b"select @@") or t[:4] in (b"USE ", b"use "):
+                    if t[:4] in (b"USE ", b"use "):
+                        c.query(t, [op_init_ok()])
+                    else:
+                        c.query(t)
+                else:
+                    c.query(t, [op_completed(j, 0)])
+            elif r < 0.36:
+                t = rng.choice(USE_OK + USE_UNJUDGED) if rng.random() < 0.8 else (rng.choice([b"USE ", b"use "]) + rand_ascii(rng, rng.randint(1, 12)).replace(b" ", b"_"))
+                c.query(t, [rng.choice([op_init_ok(), op_init_ok(), op_init_err("ER_BAD_DB_ERROR")])])
+            elif r < 0.44:
+                name = rng.choice([b"db", b"", b"`q`", b"a;", b" spaced ", rand_utf8(rng, rng.randint(0, 10)), b"USE x"])
+                c.init_db(name, [op_init_ok()])
+            elif r < 0.56:
+                sid = rng.choice([1, 2, 3, 255, 256, 65536, 2**31 - 1, 2**31, 2**32 - 1])
+                text = rng.choice([b"SELECT ?", b"", b"USE x", b"SELECT @@x", rand_utf8(rng, rng.randint(0, 20))])
+                ok = rng.random() < 0.85
+                c.prepare(text, prep_ok(sid, [], [col("x", T_LONG)]) if ok else prep_err("ER_PARSE_ERROR"))
+                if ok and sid not in live:
+                    live.append(sid)
+            elif r < 0.68 and live:
+                c.execute(rng.choice(live), [], [op_completed(1, j)])
+            elif r < 0.76:
+                sid = rng.choice(live + [9, 77, 2**32 - 2]) if live else rng.choice([9, 77])
+                c.cmd(com_close(sid))
+                if sid in live:
+                    live.remove(sid)
+            elif r < 0.8 and live:
+                c.cmd(com_long_data(rng.choice(live), 0, rand_ascii(rng, rng.randint(0, 10))))
+            elif r < 0.88:
+                c.ping()
+            elif r < 0.93:
+                c.cmd(com_field_list(rng.choice([b"t", b"", b"tbl"]), rng.choice([b"", b"%"])))
+            elif r < 0.96 and j > 1:
+                # a text that must never reach the shim; ends the connection
+                kind = rng.random()
+                bad = invalid_utf8(rng)
+                if kind < 0.4:
+                    c.cmd(com_query(bad))
+                elif kind < 0.6:
+                    c.cmd(com_query(rng.choice([b"USE ", b"use "]) + bad))
+                elif kind < 0.8:
+                    c.cmd(com_prepare(bad))
+                else:
+                    c.cmd(com_init_db(bad))
+                fatal = True
+                c.ping()
+                break
+            else:
+                c.ping()
+            if c.mode == "lockstep" or rng.random() < 0.3:
+                c.ping()
+        if not fatal and rng.random() < 0.7:
+            c.quit()
+            if rng.random() < 0.3:
+                c.query("after quit", [op_completed(0, 0)])
+        out.append(c.build())
+    return out
+
+
+# ------------------------------------------------------------------------------------------------
+def rows_program(nrows, binary=False, ncols=1):
+    cols = [col("c%d" % i, T_LONG) for i in range(ncols)]
+    ops = [op_start(cols)]
+    for r in range(nrows):
+        ops.append(op_write_row([v_int("i32", (r * 7 + i) % 1000 - 500) for i in range(ncols)]))
+    ops.append(op_finish())
+    return ops
+
+
+def gen_C05(rng, tier):
+    out = []
+    lens = [1, 2, 3, 254, 255, 256, 257, 511, 512, 513, 700]
+    # every request id with a short response; boundary ids with long responses
+    k = 0
+    for seq in range(256):
+        c = Conv("C05-s%03d" % seq, mode="lockstep", hs_seq=(seq + 1) % 256 if seq % 5 == 0 else 1)
+        c.query("Q", rows_program(rng.choice([0, 1, 2, 5])), seq0=seq)
+        c.ping(seq0=(seq * 7 + 3) % 256)
+        c.prepare("P", prep_ok(3, [col("p", T_LONG)], [col("c0", T_LONG)]), seq0=seq)
+        c.execute(3, [p_int(T_LONG, 5)], rows_program(2, True), seq0=255 - seq)
+        c.cmd(com_field_list(), seq0=seq)
+        c.query("USE x", [op_init_ok()], seq0=(seq + 128) % 256)
+        c.quit(seq0=seq)
+        out.append(c.build())
+    seqs = [0, 1, 2, 127, 128, 250, 253, 254, 255] if tier == "quick" else list(range(0, 256, 5)) + [254, 255]
+    for seq in seqs:
+        for n in (lens if tier != "quick" else [254, 255, 256, 257, 513]):
+            c = Conv("C05-l%03d-%d" % (seq, n), mode=rng.choice(["lockstep", "pipelined"]))
+            # response = 1 (count) + 1 (def) + 1 (eof) + n rows + 1 eof packets
+            c.query("Q", rows_program(n), seq0=seq)
+            c.ping(seq0=seq)
+            c.quit()
+            out.append(c.build())
+            k += 1
+    return out
+
+
+def gen_C14(rng, tier):
+    out = []
+    edge = [0, 1, 250, 251, 252, 253, 254, 255, 256, 2**16 - 1, 2**16, 2**16 + 1, 2**24 - 1, 2**24, 2**24 + 1, 2**32 - 1, 2**32,
+            2**63 - 1, 2**63, 2**64 - 2, 2**64 - 1]
+    pairs = [(a, b_) for a in edge for b_ in edge]
+    rng.shuffle(pairs)
+    extra = 400 if tier == "quick" else 6000
+    pairs += [(rng.getrandbits(rng.choice([8, 16, 24, 32, 48, 64])), rng.getrandbits(rng.choice([8, 16, 24, 32, 64]))) for _ in range(extra)]
+    i = 0
+    sid = 0
+    while i < len(pairs):
+        c = Conv("C14-%04d" % sid, mode=rng.choice(["lockstep", "pipelined"]))
+        sid += 1
+        c.chunks, c.then = rand_chunks(rng)
+        c.prepare("P", prep_ok(1, [], []))
+        for _ in range(rng.randint(2, 8)):
+            if i >= len(pairs):
+                break
+            chain = rng.choice([1, 1, 2, 3, 5])
+            ops = []
+            for j in range(chain):
+                a, b_ = pairs[i % len(pairs)]
+                i += 1
+                ops.append(op_complete_one(a, b_) if j < chain - 1 or rng.random() < 0.3 else op_completed(a, b_))
+            if ops[-1]["op"] == "complete_one":
+                ops.append(rng.choice([op_no_more_results(), op_drop()]))
+            if rng.random() < 0.5:
+                c.query("DML", ops)
+            else:
+                c.execute(1, [], ops)
+        # zero-column resultsets with k rows
+        for k in ([0, 1, 2, 3, 250, 251, 300] if tier == "quick" else [0, 1, 2, 250, 251, 252, 1000, 65536]):
+            if rng.random() < (0.25 if tier == "quick" else 0.5):
+                ops = [op_start([])]
+                for r in range(k):
+                    ops.append(rng.choice([op_end_row(), op_write_row([]), op_end_row()]))
+                ops.append(rng.choice([op_finish(), op_drop(), op_finish_one()]))
+                if ops[-1]["op"] == "finish_one":
+                    ops.append(op_no_more_results())
+                if rng.random() < 0.5:
+                    c.query("Z", ops)
+                else:
+                    c.execute(1, [], ops)
+        c.ping()
+        c.quit()
+        out.append(c.build())
+    return out
+
+
+def gen_C13(rng, tier):
+    import json as _json, os as _os
+    ref = _json.load(open(_os.path.join(_os.path.dirname(_os.path.dirname(_os.path.abspath(__file__))), 'spec', 'data', 'mysql_errors_ref.json')))
+    kinds = sorted(ref)
+    msgs = [b"", b"plain message", b"x" * 600, b"\xff\xfe bad utf8 \x80", b"has # hash #42000", b"nul\x00inside", b"\xff", b"#", b"#HY000", b"\xc3\xa9t\xc3\xa9"]
+    sites = ["query", "prepare", "init", "use", "after0", "after1", "afterN", "bin_after1", "second", "exec"]
+    out = []
+    out.append({"id": "C13-table", "kind": "errtable"})
+    per = 16
+    reps = 1 if tier == "quick" else 5
+    jobs = []
+    for rep in range(reps):
+        for k in kinds:
+            jobs.append((k, rng.choice(sites) if rep or tier == "quick" else sites[len(jobs) % len(sites)], rng.choice(msgs)))
+    if tier != "quick":
+        for k in rng.sample(kinds, 60):
+            for s in sites:
+                jobs.append((k, s, rng.choice(msgs)))
+    for n in range(0, len(jobs), per):
+        c = Conv("C13-%04d" % (n // per), mode=rng.choice(["lockstep", "pipelined"]))
+        c.prepare("P", prep_ok(1, [], [col("a", T_LONG)]))
+        for (k, site, msg) in jobs[n:n + per]:
+            cols = [col("a", T_LONG)]
+            if site == "query":
+                c.query("Q", [op_error(k, msg)])
+            elif site == "exec":
+                c.execute(1, [], [op_error(k, msg)])
+            elif site == "prepare":
+                c.prepare("BAD", prep_err(k, msg))
+            elif site == "init":
+                c.init_db("db", [op_init_err(k, msg)])
+            elif site == "use":
+                c.query("USE db", [op_init_err(k, msg)])
+            elif site == "after0":
+                c.query("Q", [op_start(cols), op_finish_error(k, msg)])
+            elif site == "after1":
+                c.query("Q", [op_start(cols), op_write_row([v_int("i32", 1)]), op_finish_error(k, msg)])
+            elif site == "afterN":
+                c.query("Q", [op_start(cols)] + [op_write_row([v_int("i32", i)]) for i in range(rng.randint(2, 9))] + [op_finish_error(k, msg)])
+            elif site == "bin_after1":
+                c.execute(1, [], [op_start(cols), op_write_col(v_int("i32", 1)), op_finish_error(k, msg)])
+            elif site == "second":
+                c.query("Q", [op_complete_one(1, 2), op_start([]), op_end_row(), op_finish_one(), op_error(k, msg)])
+        c.ping()
+        c.quit()
+        out.append(c.build())
+    return out
+
+
+def gen_C09(rng, tier):
+    out = []
+    name_lens = [0, 1, 250, 251, 252, 255, 256, 1000] + ([65535, 65536, 70000] if tier != "quick" else [65535, 65536])
+    counts = [0, 1, 2, 3, 250, 251, 252, 300] + ([1000] if tier != "quick" else [])
+    all_types = ALL_COL_TYPES + [T_NULL, T_YEAR]
+    flagsets = [0, 1, 2, 4, 8, 16, 32, 64, 128, 256, 512, 1024, 2048, 4096, 8192, 16384, 32768, 0xffff, 0x1234, 33]
+
+    def mkname(n):
+        r = rng.random()
+        if n == 0:
+            return b""
+        if r < 0.5:
+            return rand_ascii(rng, n)
+        s = rand_utf8(rng, n)
+        while len(s) > n:
+            s = s[:-1]
+        while True:
+            try:
+                s.decode()
+                break
+            except UnicodeDecodeError:
+                s = s[:-1]
+        return s + b"x" * (n - len(s))
+
+    sid = 0
+    # many small descriptors with all types / flags
+    nsmall = 60 if tier == "quick" else 600
+    for i in range(nsmall):
+        c = Conv("C09-s%04d" % i, mode=rng.choice(["lockstep", "pipelined"]))
+        for j in range(rng.randint(1, 5)):
+            ncol = rng.choice([0, 1, 2, 3, 5, 8])
+            cols = [{"t": b(mkname(rng.choice([0, 1, 3, 10]))), "n": b(mkname(rng.choice([0, 1, 5, 20, 64]))),
+                     "ty": rng.choice(all_types), "fl": rng.choice(flagsets)} for _ in range(ncol)]
+            npar = rng.choice([0, 1, 2, 4])
+            params = [{"t": b(mkname(rng.choice([0, 2]))), "n": b(mkname(rng.choice([0, 1, 4]))),
+                       "ty": rng.choice(all_types), "fl": rng.choice(flagsets)} for _ in range(npar)]
+            stmt = rng.choice([0, 1, 2, 2**16, 2**31, 2**32 - 1, rng.getrandbits(32)])
+            if rng.random() < 0.5:
+                c.prepare("P%d" % j, prep_ok(stmt, params, cols))
+            else:
+                c.query("Q%d" % j, [op_start(cols), rng.choice([op_finish(), op_drop(), op_finish_error("ER_NO", b"x")])])
+            if rng.random() < 0.4:
+                c.cmd(com_field_list())
+        c.ping()
+        c.quit()
+        out.append(c.build())
+    # long names / many columns
+    for n in name_lens:
+        c = Conv("C09-n%d" % n, mode="lockstep")
+        cols = [{"t": b(mkname(n)), "n": b(mkname(n)), "ty": T_VAR_STRING, "fl": 0}, col("z", T_LONG)]
+        c.query("Q", [op_start(cols), op_finish()])
+        if n < 60000:
+            c.prepare("P", prep_ok(9, cols, cols))
+        c.ping()
+        c.quit()
+        out.append(c.build())
+    for n in counts:
+        c = Conv("C09-c%d" % n, mode="lockstep")
+        cols = [{"t": b(b"t"), "n": b("c%d" % i), "ty": rng.choice(ALL_COL_TYPES), "fl": rng.choice([0, 1, 32, 33])} for i in range(n)]
+        c.query("Q", [op_start(cols), op_finish()])
+        c.prepare("P", prep_ok(n, cols[:n // 2], cols))
+        c.ping()
+        c.quit()
+        out.append(c.build())
+    return out
+
+
+# ------------------------------------------------------------------------------------------------
+def all_value_kinds(rng):
+    """one value of every ToMysqlValue implementor class"""
+    vs = []
+    for k in INT_RANGE:
+        vs.append(v_int(k, rand_int(rng, k)))
+    vs += [v_f32(rand_f32_bits(rng)), v_f64(rand_f64_bits(rng))]
+    for kind in ("bytes", "vec", "str", "string"):
+        vs.append(rand_bytes_val(rng, 40, kind))
+    vs.append(v_date(*rand_date(rng)))
+    y, m, d = rand_date(rng)
+    h, mi, s = rand_time(rng)
+    vs.append(v_datetime(y, m, d, h, mi, s, rand_us(rng)))
+    vs.append(v_dur(rng.choice([0, 1, 59, 60, 3599, 3600, 86399, 86400, 34 * 86400 + 86399, rng.randint(0, 3000000)]), rand_us(rng)))
+    vs += [v_none("u8"), v_none("str"), v_none("f64"), v_none("date"), v_myc_null()]
+    vs.append(v_some(rng.choice(vs[:20])))
+    vs.append(v_ref(rng.choice(vs[:20])))
+    vs += [v_myc_int(rand_int(rng, "i64")), v_myc_uint(rand_int(rng, "u64")), v_myc_float(rand_f32_bits(rng)),
+           v_myc_double(rand_f64_bits(rng)), v_myc_bytes(bytes(rng.getrandbits(8) for _ in range(rng.randint(0, 30)))),
+           v_myc_date(y, m, d, h, mi, s, rand_us(rng)), v_myc_time(rng.randint(0, 34), h, mi, s, rand_us(rng))]
+    return vs
+
+
+def gen_C06(rng, tier):
+    out = []
+    # (a) direct text encodings: boundary sweep for every integer kind, floats, dates
+    cases = []
+    dummy = col("x", T_VAR_STRING)
+    for k in INT_RANGE:
+        xs = boundary_ints(k)
+        if tier == "quick":
+            xs = rng.sample(xs, min(len(xs), 60))
+        for x in xs:
+            cases.append({"v": v_int(k, x), "col": dummy, "mode": "text"})
+    for bits in SPECIAL_F64 + [rand_f64_bits(rng) for _ in range(150 if tier == "quick" else 4000)]:
+        if ((bits >> 52) & 0x7ff) != 0x7ff:
+            cases.append({"v": v_f64(bits), "col": dummy, "mode": "text"})
+    for bits in SPECIAL_F32 + [rand_f32_bits(rng) for _ in range(150 if tier == "quick" else 4000)]:
+        if ((bits >> 23) & 0xff) != 0xff:
+            cases.append({"v": v_f32(bits), "col": dummy, "mode": "text"})
+    years = [0, 1, 4, 100, 400, 1900, 2000, 2024, 9999] if tier == "quick" else [0, 1, 4, 100, 400, 1900, 2000, 2023, 2024, 9999]
+    for y in years:
+        for m in range(1, 13):
+            for d in ([1, days_in(y, m)] if tier == "quick" else range(1, days_in(y, m) + 1)):
+                cases.append({"v": v_date(y, m, d), "col": dummy, "mode": "text"})
+    for _ in range(200 if tier == "quick" else 5000):
+        y, m, d = rand_date(rng)
+        h, mi, s = rand_time(rng)
+        cases.append({"v": v_datetime(y, m, d, h, mi, s, rand_us(rng)), "col": dummy, "mode": "text"})
+        cases.append({"v": v_dur(rng.choice([0, 59, 3600, 86399, 86400, 360000, 3020399, rng.randint(0, 4000000)]), rand_us(rng)), "col": dummy, "mode": "text"})
+    for n in [0, 1, 250, 251, 252, 65535, 65536] + ([70000] if tier != "quick" else []):
+        data = bytes((i * 31 + n) % 256 for i in range(n))
+        cases.append({"v": v_bytes(data, "bytes"), "col": dummy, "mode": "text"})
+    for i in range(0, len(cases), 400):
+        out.append({"id": "C06-enc%03d" % (i // 400), "kind": "encode", "cases": cases[i:i + 400]})
+    # (b) through the real connection: rows of mixed types in 1..40 column layouts
+    nconv = 60 if tier == "quick" else 900
+    for i in range(nconv):
+        c = Conv("C06-r%04d" % i, mode=rng.choice(["lockstep", "pipelined"]))
+        c.chunks, c.then = rand_chunks(rng)
+        for q in range(rng.randint(1, 3)):
+            ncol = rng.choice([1, 1, 2, 3, 5, 8, 20, 40])
+            cols = [rand_col(rng, j) for j in range(ncol)]
+            nrow = rng.choice([1, 2, 3, 5] if ncol > 8 else [1, 2, 5, 10, 50])
+            ops = [op_start(cols)]
+            for r in range(nrow):
+                vals = [any_text_value(rng) if rng.random() < 0.5 else value_for_col(rng, cols[j]["ty"], cols[j]["fl"]) for j in range(ncol)]
+                if r == 0 and q == 0 and ncol >= 20:
+                    pool = all_value_kinds(rng)
+                    vals = [pool[j % len(pool)] for j in range(ncol)]
+                if rng.random() < 0.5:
+                    ops.append(op_write_row(vals))
+                else:
+                    ops += [op_write_col(v) for v in vals] + [op_end_row()]
+            ops.append(op_finish())
+            c.query("SELECT %d" % q, ops)
+        c.ping()
+        c.quit()
+        out.append(c.build())
+    return out
+
+
+BAD_PAIRS = None
+
+
+def gen_C07(rng, tier):
+    out = []
+    nconv = 70 if tier == "quick" else 1000
+    for i in range(nconv):
+        c = Conv("C07-r%04d" % i, mode=rng.choice(["lockstep", "pipelined"]))
+        c.chunks, c.then = rand_chunks(rng)
+        ncol = rng.choice([1, 2, 3, 5, 6, 7, 8, 9, 14, 15, 16, 17, 30, 62, 63, 64, 65, 66] + ([130, 300, 600] if i % 9 == 0 else []))
+        cols = [rand_col(rng, j) for j in range(ncol)]
+        c.prepare("SELECT ...", prep_ok(1, [], cols))
+        nrow = rng.choice([1, 2, 3] if ncol > 30 else [1, 2, 4, 8, 20])
+        ops = [op_start(cols)]
+        pat = rng.choice(["rand", "all", "none", "single"])
+        for r in range(nrow):
+            vals = []
+            for j in range(ncol):
+                nullable = not (cols[j]["fl"] & F_NOT_NULL)
+                if pat == "all" and nullable:
+                    vals.append(v_none(rng.choice(["u8", "str", "i64"])))
+                elif pat == "single" and nullable and j == (r * 7 + i) % ncol:
+                    vals.append(v_myc_null() if rng.random() < 0.3 else v_none("u8"))
+                elif pat == "none":
+                    vals.append(value_for_col(rng, cols[j]["ty"], cols[j]["fl"], allow_null=False))
+                elif pat == "rand":
+                    vals.append(value_for_col(rng, cols[j]["ty"], cols[j]["fl"]))
+                else:
+                    vals.append(value_for_col(rng, cols[j]["ty"], cols[j]["fl"], allow_null=False))
+            if rng.random() < 0.5:
+                ops.append(op_write_row(vals))
+            else:
+                ops += [op_write_col(v) for v in vals]
+                if r != nrow - 1 or rng.random() < 0.7:
+                    ops.append(op_end_row())
+        ops.append(rng.choice([op_finish(), op_finish(), op_drop(), op_finish_one()]))
+        if ops[-1]["op"] == "finish_one":
+            ops.append(op_no_more_results())
+        c.execute(1, [], ops)
+        # refused writes: NULL into NOT NULL, type-class mismatches (each ends the connection, so last)
+        r = rng.random()
+        if r < 0.45:
+            ty = rng.choice(ALL_COL_TYPES)
+            cc = [col("n", ty, F_NOT_NULL | (F_UNSIGNED if ty in INT_TYPES and rng.random() < 0.5 else 0))]
+            c.prepare("S2", prep_ok(2, [], cc))
+            c.execute(2, [], [op_start(cc), op_write_col(rng.choice([v_none("u8"), v_none("str"), v_myc_null()])), op_end_row(), op_finish()])
+        elif r < 0.9:
+            ty = rng.choice(ALL_COL_TYPES)
+            fl = F_UNSIGNED if ty in INT_TYPES and rng.random() < 0.5 else 0
+            cc = [col("m", ty, fl)]
+            other = rng.choice([t for t in ALL_COL_TYPES if t != ty])
+            v = value_for_col(rng, other, F_UNSIGNED if other in INT_TYPES and rng.random() < 0.5 else 0, allow_null=False)
+            c.prepare("S3", prep_ok(3, [], cc))
+            c.execute(3, [], [op_start(cc), op_write_col(v), op_end_row(), op_finish()])
+        c.ping()
+        c.quit()
+        out.append(c.build())
+    # direct encoder: every value class against every column type
+    cases = []
+    for rep in range(2 if tier == "quick" else 30):
+        for ty in ALL_COL_TYPES:
+            for fl in ([0, F_UNSIGNED] if ty in INT_TYPES else [0]):
+                for v in all_value_kinds(rng):
+                    if v["c"]["t"] != "null":
+                        cases.append({"v": v, "col": col("x", ty, fl), "mode": "bin"})
+    for i in range(0, len(cases), 500):
+        out.append({"id": "C07-enc%03d" % (i // 500), "kind": "encode", "cases": cases[i:i + 500]})
+    return out
+
+
+def gen_C15(rng, tier):
+    out = []
+    cols = [col("x", ty, fl) for ty in INT_TYPES for fl in (0, F_UNSIGNED)]
+    cases = []
+    for k in INT_RANGE:
+        xs = boundary_ints(k)
+        for x in xs:
+            for c in cols:
+                cases.append({"v": v_int(k, x), "col": c, "mode": "bin"})
+        for _ in range(30 if tier == "quick" else 500):
+            x = rand_int(rng, k)
+            cases.append({"v": v_int(k, x), "col": rng.choice(cols), "mode": "bin"})
+    for x in boundary_ints("i64"):
+        for c in cols:
+            cases.append({"v": v_myc_int(x), "col": c, "mode": "bin"})
+    for x in boundary_ints("u64"):
+        for c in cols:
+            cases.append({"v": v_myc_uint(x), "col": c, "mode": "bin"})
+    if tier == "quick":
+        rng.shuffle(cases)
+        cases = cases[:14000]
+    for i in range(0, len(cases), 700):
+        out.append({"id": "C15-enc%03d" % (i // 700), "kind": "encode", "cases": cases[i:i + 700]})
+    if tier != "quick":
+        for k in ("i8", "u8", "i16", "u16"):
+            for ci, c in enumerate(cols):
+                out.append({"id": "C15-all-%s-%d" % (k, ci), "kind": "encode", "enum": {"k": k, "cols": [c]}})
+    # through the connection as well: integer rows in binary mode
+    for i in range(20 if tier == "quick" else 300):
+        c = Conv("C15-r%03d" % i, mode="lockstep")
+        cc = [rand_col(rng, j, types=INT_TYPES) for j in range(rng.randint(1, 12))]
+        c.prepare("S", prep_ok(1, [], cc))
+        ops = [op_start(cc)]
+        for r in range(rng.randint(1, 10)):
+            ops.append(op_write_row([value_for_col(rng, x["ty"], x["fl"]) for x in cc]))
+        ops.append(op_finish())
+        c.execute(1, [], ops)
+        c.ping()
+        c.quit()
+        out.append(c.build())
+    return out
